@@ -63,6 +63,7 @@ theorem ctlGoal_iff {t : Term} : ctlGoal t = true ↔ Ctl t := by
     | ifthen c t hx => subst hx; simp [ctlGoal]
     | once x hx => subst hx; rfl
     | neg x hx => subst hx; rfl
+    | callN x e es hx hl => subst hx; simpa [ctlGoal] using hl
 
 theorem ctl_rename {t : Term} (ρ : Nat → Nat) (h : Ctl t) : Ctl (t.rename ρ) := by
   cases h with
@@ -71,6 +72,9 @@ theorem ctl_rename {t : Term} (ρ : Nat → Nat) (h : Ctl t) : Ctl (t.rename ρ)
   | ifthen c t hx => subst hx; exact .ifthen (c.rename ρ) (t.rename ρ) rfl
   | once x hx => subst hx; exact .once (x.rename ρ) rfl
   | neg x hx => subst hx; exact .neg (x.rename ρ) rfl
+  | callN x e es hx hl =>
+    subst hx
+    exact .callN (x.rename ρ) (e.rename ρ) (es.rename ρ) rfl (by rw [Args.rename, Args.length_subst]; exact hl)
 
 theorem ctl_of_rename {t : Term} (ρ : Nat → Nat) (h : Ctl (t.rename ρ)) : Ctl t := by
   cases h with
@@ -105,6 +109,11 @@ theorem ctl_of_rename {t : Term} (ρ : Nat → Nat) (h : Ctl (t.rename ρ)) : Ct
     obtain ⟨a', bs', rfl, _, hb⟩ := subst_eq_cons has
     rw [subst_eq_nil hb]
     exact .neg _ rfl
+  | callN x e es hx hl =>
+    obtain ⟨as', rfl, has⟩ := rename_eq_app hx
+    obtain ⟨a', bs', rfl, _, hb⟩ := subst_eq_cons has
+    obtain ⟨e', bs'', rfl, _, hb'⟩ := subst_eq_cons hb
+    exact .callN _ _ _ rfl (by rw [← hb', Args.length_subst] at hl; exact hl)
 
 theorem ctlGoal_rename (ρ : Nat → Nat) (t : Term) : ctlGoal (t.rename ρ) = ctlGoal t := by
   rw [Bool.eq_iff_iff, ctlGoal_iff, ctlGoal_iff]
